@@ -254,3 +254,21 @@ pub fn ops_plan<T: Subj>(tier: Tier) -> Plan<T> {
     }
     p
 }
+
+/// closure pass of the arithmetic checks: re-seed the first register with the values the model
+/// derives from the initial GRID states, keep the GRID in the second register
+pub fn closure_plan<T: Subj, Z: refmodel::ZNum>(ops: &[vengine::Op<T, Z>], tier: Tier) -> Option<Plan<T>> {
+    if tier != Tier::Thorough || T::BITS <= 16 || T::N > 4 {
+        return None;
+    }
+    let base = arith::<T>(Tier::Quick);
+    let (v1, found) = vengine::closure_values(ops, &base, 160, 20_000);
+    let b: Vec<Vec<u8>> = base.a.iter().map(|x| x.le()).collect();
+    let c: Vec<Vec<u8>> = base.c.iter().map(|x| x.le()).collect();
+    let label = format!("CLOSURE: {} model-derived values (of {} found) x GRID", v1.len(), found);
+    Some(
+        Plan::new(&label, &v1, &b, &c)
+            .with_aux(Aux::Shift, sets::shift_amounts(T::BITS, T::DIGIT_BITS, Tier::Quick))
+            .with_aux(Aux::Exp, sets::exponents(T::BITS, Tier::Quick)),
+    )
+}
